@@ -263,6 +263,12 @@ class Gen:
             lambda: "(def(%s, switch($1 <= 0 => 0, true => %s($1 - 1) + $1)) -> %s(%d))" % (f, f, f, rng.randrange(0, 6)),
             lambda: "(def(%s, switch($ <= 1 => 1, true => %s($ - 1) * $)) -> %s(%d))" % (f, f, f, rng.randrange(0, 6)),
             lambda: "(def(%s, switch($1 <= 0 => [], true => %s($1 - 1) + [$1, $2])) -> %s(%d, %s))" % (f, f, f, rng.randrange(0, 4), i()),
+            # a def'd FUNCTION does not hide the METHOD of the same name (functions and methods are distinct)
+            lambda: "(def(len, 0) -> [len(%s), %s.len()])" % (self.list_lit(env, 1), self.list_lit(env, 1)),
+            lambda: "(def(first, $1 + 1) -> [first(%s), %s.first(%s), %s.select(first($)).toList()])" % (i(), self.list_lit(env, 1, minlen=1), i(), self.list_lit(env, 1)),
+            lambda: "(def(toList, [$1]) -> def(%s, %s.where($ > 0).toList()) -> [toList(%s), %s(), %s.select($).toList()])" % (f, self.list_lit(env, 1), i(), f, self.list_lit(env, 1)),
+            lambda: "(def(select, $1) -> def(where, $1) -> %s.where(select($) >= where(0)).select(select($) + 1).len())" % self.list_lit(env, 1),
+            lambda: "(def(any, 7) -> [any(), %s.any($ > 1), %s.all($ > 1)])" % (self.list_lit(env, 1), self.list_lit(env, 1)),
             # null bindings shadow outer non-null ones
             lambda: "(let(%s => %s) -> let(%s => null) -> [$%s, $%s = null])" % (x, i(), x, x, x),
             lambda: "[null, %s, null].select([$, $ = null])" % i(),
